@@ -128,7 +128,7 @@ fn run_sub(mut args: Args) -> SubResult {
         res.cap("c11 thorough stops at 5 entries (c04_sources covers 6): the cache-level work per tree is several times that of c04");
     }
     let total = cases.len();
-    let timeout = Duration::from_secs(if args.thorough() { 3000 } else { 600 });
+    let timeout = Duration::from_secs(if args.thorough() { 6000 } else { 1800 });
     let mut res = vcommon::run_cases(&args, res, total, timeout, |idx, res| {
         let r = if c04 { c04::run_case(&cases[idx], res) } else { c11::run_case(&cases[idx], res) };
         if let Err(e) = r {
